@@ -975,6 +975,11 @@ func shapeWorld(seed int64, id int, shape string, width, depth int, rootOK bool)
 	if star || linked {
 		shape = "chain"
 	}
+	// layered-multicap / chain-multicap: every delegation lists an unrelated capability BEFORE the one that is wanted
+	multicap := shape == "layered-multicap" || shape == "chain-multicap"
+	if multicap {
+		shape = shape[:len(shape)-len("-multicap")]
+	}
 	w := &World{ID: id, Kind: shape, Cast: cast, Can: "store/add", Inv: "inv", Ctx: baseCtx(service)}
 	if shape == "attest-siblings" {
 		// one login by an account without a key, `width` attestations of it issued by OTHER key-less DIDs (each of which
@@ -1053,6 +1058,9 @@ func shapeWorld(seed int64, id int, shape string, width, depth int, rootOK bool)
 			if star {
 				sp.Caps = []CapSpec{{Can: "*", With: "ucan:*", Nb: Cav{}}}
 			}
+			if multicap {
+				sp.Caps = append([]CapSpec{{Can: "store/list", With: with, Nb: Cav{}}}, sp.Caps...)
+			}
 			switch shape {
 			case "layered", "chain":
 				for _, p := range prevLayer {
@@ -1103,7 +1111,15 @@ func init() {
 			shapes = append(shapes, sh{"chain", 1, d})
 		}
 		for d := 1; d <= 8; d++ {
-			shapes = append(shapes, sh{"chain-star", 1, d}, sh{"chain-linked", 1, d})
+			shapes = append(shapes, sh{"chain-star", 1, d}, sh{"chain-linked", 1, d}, sh{"chain-multicap", 1, d})
+		}
+		for _, wd := range []int{2, 3} {
+			for d := 1; d <= 5; d++ {
+				if wd == 3 && d > 4 {
+					continue
+				}
+				shapes = append(shapes, sh{"layered-multicap", wd, d})
+			}
 		}
 		for _, wd := range []int{2, 3} {
 			for d := 1; d <= 4; d++ {
@@ -1171,6 +1187,7 @@ func init() {
 				id++
 			}
 		}
+		infos = append(infos, c19ServerManyCaps(o.seed, id)...)
 		if err := writeWorldCases(o.out, "cases_C19", cases, 16, "check_worlds"); err != nil {
 			return err
 		}
